@@ -59,6 +59,38 @@ def rule_config(method, n, order):
     return r, r._parity(method, n - 1, mo), (n - 1 + mo) // step, (n - 1) // step, bool(r._flip_fd_rule)
 
 
+def initial_cache(ctx, tables, initial):
+    """Whatever the module-level cache FD_RULES holds when the module is imported (the source ships it empty, with a table in a comment) is
+    served to every later rule() call with that key; each shipped matrix must therefore be the inverse of the moment matrix of its key."""
+    for key, mat in sorted(initial.items(), key=repr):
+        ctx.count(1, ('initial-cache',))
+        try:
+            ratio, parity, T = float(key[0]), int(key[1]), int(key[2])
+            A = np.atleast_2d(np.asarray(mat, dtype=float))
+        except Exception:   # noqa
+            ctx.brk('correspondence', 'FD_RULES is pre-populated at import with an entry of unknown shape', {'key': repr(key)})
+            continue
+        if tables is None or not (0 <= parity <= 6) or T < 1 or T > 10 or A.shape != (T, T):
+            ctx.brk('correspondence', 'FD_RULES is pre-populated at import with an entry that cannot be interpreted', {'key': repr(key), 'shape': list(A.shape)})
+            continue
+        M = exact_moment(tables, parity, T, ratio)
+        Minv = inverse(M)
+        if Minv is None:
+            continue
+        kappa = norm_inf(M) * norm_inf(Minv)
+        for ri in range(T):
+            scale = max(abs(v) for v in Minv[ri])
+            err = max(abs(Fraction(float(A[ri][j])) - Minv[ri][j]) for j in range(T))
+            if err > Fraction(1, 10 ** 6) * scale + 8 * U * kappa * scale:
+                step, off, _ = tables[parity]
+                ctx.violation('prepopulated-cache',
+                              'FD_RULES is shipped with the entry %r whose row %d (the rule for the derivative of order %d of that parity class) is %r, but row %d of the inverse of the moment matrix is %r: every rule() call with this key returns the wrong rule' % (
+                                  key, ri, off + step * ri, [float(v) for v in A[ri]], ri, [float(v) for v in Minv[ri]]),
+                              {'key': repr(key), 'row': ri, 'shipped': [float(v) for v in A[ri]], 'exact': [float(v) for v in Minv[ri]],
+                               'how': 'import numdifftools.finite_difference as fdm; fdm.FD_RULES[key] right after import; e.g. nd.Derivative(np.exp, n=3, step_ratio=2)(0.0) for key (2.0, 1, 2)'})
+                return
+
+
 def certificates(ctx, tables, nmax, ratios):
     """rule() for every configuration: recorded weights vs the exact inverse of the model's moment matrix."""
     from numdifftools import finite_difference as fdm
@@ -255,9 +287,12 @@ def subclass_search(ctx):
 
 
 def run(ctx):
+    from numdifftools import finite_difference as fdm0
+    initial = dict(fdm0.FD_RULES)          # before anything in this process has asked for a rule
     proof_stage(ctx, ['Props/C06.v', 'Props/C06c.v'], extra_targets=['Model/Moment.vo'])
     trval.run(ctx)
     tables = model_tables(ctx)
+    initial_cache(ctx, tables, initial)
     ratios_q = [2.0, 1.6, 4.0, 1.2, 10.0] + [float(v) for v in ctx.rng(3).uniform(1.05, 10, size=ctx.n(2, 20))]
     nm = moment_tie(ctx, ratios_q[:ctx.n(4, 12)])
     singular = 0
